@@ -44,6 +44,8 @@ func measuredRead(c *chunkReader) (o readObs, alloc uint64, hung bool) {
 func corrC04(r *Run) {
 	r.Import("Model.PduRun")
 	r.Import("Model.PduAllocRun")
+	r.Import("Model.PduReadHazardsRun")
+	ioBudget := r.N(160, 3000) // the Go-hazards layer of the decoder (read_pdu_io) on a fixed slice of the malformed stream
 	r.PerShard(80)
 	r.Rule = "arbitrary octets under arbitrary read schedules: unstructured random strings; a valid header of every registered command_id (and unknown ids) " +
 		"followed by arbitrary body octets; every kind of command_length lie (0..15, 16, exact, short, long, 65536, 65537, 2^31, 2^32-1); mutated and truncated valid frames; " +
@@ -140,6 +142,12 @@ func corrC04(r *Run) {
 				r.Advisory(fmt.Sprintf("allocated(%d) <= requested + %d x consumed(%d) + %d  %s", alloc, allocPerOctet, o.Consumed, allocConst, shortHex(data)),
 					fmt.Sprintf("%d <=? run_alloc %s %s + %d", alloc, coqHex(data), schedTerm(sched), allocPerOctet*uint64(o.Consumed)+allocConst))
 			}
+		}
+		if ioBudget > 0 && len(data) < 1500 && len(data) >= 16 && r.Evaluations%5 == 2 && o.Kind != "hang" && o.Kind != "neither" {
+			// the layer in which make / slice / reflect.New CAN panic reproduces the implementation's outcome (class, value, octets consumed)
+			ioBudget--
+			r.Case(fmt.Sprintf("readpdu (hazards layer) %s sched=%s", shortHex(data), schedString(sched)),
+				fmt.Sprintf("beq_read (run_read_io %s %s) %s", coqHex(data), schedTerm(sched), o.term()))
 		}
 		if caseBudget > 0 && len(data) < 6000 && o.Kind != "hang" && o.Kind != "neither" {
 			caseBudget--
